@@ -13,7 +13,10 @@
 (*           predecessor states.  A call that is not such a step is        *)
 (*           schedule drift: counted, the model stops tracking, and it is  *)
 (*           a violation only if the outcome is wrong as well.             *)
-(*   result  judged by FixedPoint!Judge - on the OUTCOME only.             *)
+(*   result  judged by FixedPoint!Judge - on the OUTCOME only; in addition, *)
+(*           while the model tracks the run (no drift), a step whose new   *)
+(*           state is not above the old one (without the force flag) must   *)
+(*           end the run with an error: no further trans call, no result.   *)
 (***************************************************************************)
 EXTENDS FixedPoint, TraceLib
 
@@ -82,6 +85,12 @@ TransEv(e) ==
   IF known /\ e.out # T(P, e.l, e["in"])
   THEN /\ Reject(l, "trans is not the table (recorder)", <<>>)
        /\ skip' = TRUE /\ UNCHANGED <<g, s, nt, drift, rv>>
+  ELSE IF drift = 0 /\ s.oc = "ErrOrdering"
+  \* every call so far was a step of chaotic iteration and the last one produced, without the force flag, a
+  \* state that is not above the state it replaces: the iterates of a monotone analysis ascend, so the
+  \* analysis is not monotone and the solver has to stop with an error
+  THEN /\ Reject(l, "the solver went on after a recomputed state that is not above the recorded one (no force flag)", <<>>)
+       /\ skip' = TRUE /\ UNCHANGED <<g, s, nt, drift, rv>>
   ELSE
     /\ nt' = nt + 1
     /\ UNCHANGED <<g, skip>>
@@ -99,6 +108,8 @@ ResultEv(e) ==
   \E mono \in {P.start # 0 /\ Monotone(P)} :
   \E verdict \in { IF Has(e.res, "err") /\ e.res.err = "Diverged" /\ P.cap <= 2 * Bound(P)
                     THEN "the recorder's cap on trans calls is too small for this problem (recorder)"
+                    ELSE IF drift = 0 /\ s.oc = "ErrOrdering" /\ Has(e.res, "ok")
+                    THEN "a result although a recomputed state was not above the recorded one (no force flag)"
                     ELSE JudgeM(P, P.budget, nt, Outcome(e.res), mono) } :
     /\ Stat(e, mono, verdict)
     /\ UNCHANGED <<g, s, nt, drift, rv>>
